@@ -33,7 +33,8 @@ def programs():
     add("dispatch-dataset", prog(DS(2), d1={"args": [["a", O("E", dk="const", dv="x")]]},
                                  d2={"args": [["a", O("A", dk="const", dv=0)]],
                                      "dispatch": {"k": "apply", "src": DS(1), "fn": "tostr", "n": 1},
-                                     "overloads": [["('ds1', 'default', 'x')", {"args": []}], ["('ds1', 'default', 'y')", {"expr": O("B", dk="const", dv=2)}]]}))
+                                     "overloads": [["str:('T', (('s', 'ds1'), ('s', 'default'), ('s', 'x')))", {"args": [], "tag": "ov:x"}],
+                                                   ["str:('T', (('s', 'ds1'), ('s', 'default'), ('s', 'y')))", {"expr": O("B", dk="const", dv=2)}]]}))
     add("abstract", prog({"k": "coalesce", "members": [DS(1), C("fallback")]},
                          d1={"args": [], "abstract": True, "dispatch": "D", "overloads": [["x", {"args": [["b", O("B")]]}], ["y", {"args": []}]]}))
     # 3 templated references
@@ -112,6 +113,13 @@ def programs():
     add("uc-domain-spec", prog(K({"k": "coalesce", "members": [O("A", dk="const", dv=1, dom=["spec", O("C", dk="const", dv=[0, 1, "a"])]), C("rejected")]})))
     add("uc-ds-dispatch-default", prog(K(DS(1)), d1={"args": [], "cache": "nocache", "dispatch": O("D", dk="const", dv="x", dom=["container", ["x", "y"]]),
                                                     "overloads": [["x", {"expr": C("impl-x")}], ["y", {"expr": C("impl-y")}]]}))
+    # 13 reproducer of the recorded finding 'fallback-unexplainable-present-key' (known_findings.json):
+    #    the overload selected by D='x' fails on the present-but-unregistered E, cannot be explain()ed, and the
+    #    coalesce falls back to a constant whose key set mentions neither D nor E
+    add("kf-fallback-unexplainable",
+        prog(K({"k": "coalesce", "members": [DS(1), C("fell-back")]}),
+             d1={"args": [["a", O("A", dk="const", dv=0)]], "cache": "nocache", "dispatch": "D",
+                 "overloads": [["x", {"expr": {"k": "switch", "disp": O("E"), "table": [["y", C("e-y")], ["z", C("e-z")]]}}]]}))
     return out
 
 
@@ -136,6 +144,7 @@ def dictionaries():
         {"D": "x", "C": 6},
         {"D": "y", "C": 6},
         {"E": "x"},
+        {"D": "x", "E": None},
         {"E": "y"},
         {"E": "y", "D": "q", "A": "a"},
         {"A": "{B}", "B": 1},
